@@ -91,6 +91,20 @@ CHECKS = {
              "made during that very call, one role per draw, no draw shared between calls.",
         note="Trusted: interpreter, z3, the stubs. Statistical quality of the OS RNG is outside the technique; distinctness follows from the RNG assumption. Public-key mode "
              "(ephemeral key) is not covered yet."),
+    "C04": dict(
+        text="A valid blob is produced symbolically by protect (symbolic plaintext, root key, CEK, nonces, ciphertext; both layouts) and then altered: one byte replaced by a "
+             "symbolic value at structural positions (thorough: every position), truncation, deletion and insertion of a symbolic byte, two-site substitutions; unprotect is "
+             "executed on every path and z3 proves that whenever it returns, the bytes equal the original plaintext symbols.",
+        note="Trusted: interpreter, z3, the ideal AEAD / key-wrap / KDF contracts (so the claim is: every byte that can influence the result reaches the authenticated "
+             "primitives unchanged; GCM/AES-KW strength is outside). Structure-shifting alterations run on a blob whose opaque contents are fixed pseudo-random octets (see "
+             "DESIGN.md); one configuration (SHA512, nonce mode, 5-byte plaintext)."),
+    "C05": dict(
+        text="Every ASN.1 reader, the CMS/blob/key-identifier decoders and the offline unprotect path are executed on arbitrary byte strings of stated small sizes, on key "
+             "identifiers whose L0/L1/L2/flags/length fields are fully symbolic, and on a valid symbolic blob with a symbolic byte at structural positions / truncations; every "
+             "path must end in a return, a cache miss or one of the deliberate error types within the statement budget, with at most 67 key-derivation steps and no "
+             "allocation whose size is taken unchecked from the input.",
+        note="Trusted: interpreter, z3, ideal-primitive and DH-algebra stubs. Whole-blob arbitrary buffers of realistic size are outside the technique; the composition "
+             "argument over units is by inspection of the call graph."),
 }
 
 _PENDING = "check not built yet in this round (work in progress; see DESIGN.md for the plan)"
